@@ -431,7 +431,8 @@ def _token_layout_programs():
     for pi, text in enumerate(TOKEN_PROGRAMS):
         toks = [t for t in _TOKEN.findall(text) if t.strip()]
         out.append((text, f"tokens #{pi} as written"))
-        for name, sep in (("blank", " "), ("two blanks", "  "), ("tab", "\t"), ("line break", "\n"), ("blank line", "\n\n"), ("line break and indentation", "\n    ")):
+        for name, sep in (("blank", " "), ("two blanks", "  "), ("tab", "\t"), ("line break", "\n"), ("blank line", "\n\n"), ("line break and indentation", "\n    "),
+                          ("CR LF", "\r\n"), ("CR LF and indentation", "\r\n  ")):
             out.append((sep.join(toks), f"tokens #{pi} separated by {name}"))
         rnd = _random.Random(f"c20-layout/{pi}")
         for k in range(4):
@@ -617,6 +618,14 @@ def _layouts(inst):
         b = _check_layout(src, name, diag)
         if b:
             bad.append((kind, b))
+    # the same texts with Windows line ends (every third one): a position still designates the identifier in the text that was handed in
+    for k, (src, name, kind, diag) in enumerate(_layout_programs()):
+        if k % 3:
+            continue
+        res["paths"] += 1
+        b = _check_layout(src.replace("\n", "\r\n"), name, diag)
+        if b:
+            bad.append((kind + ", CR LF line ends", b))
     # every pair of adjacent tokens of whole-language programs separated in several ways
     accepted = 0
     for src, label in _token_layout_programs():
